@@ -59,6 +59,7 @@ func purgeFile(dirname string, suffix string, max uint, interval time.Duration, 
 				if err != nil {
 					break
 				}
+				verifPoint("purge.file")
 				if err = os.Remove(f); err != nil {
 					errC <- err
 					return
